@@ -20,7 +20,9 @@ using bspline::support::Grid;
 using bspline::support::Support;
 
 // scalar used by the engines: the permissive exact rational, or (C19, -DVF_STRICT) the strict archetype
-#ifdef VF_STRICT
+#if defined(VF_LAZY)
+using DefaultScalar = LQ;
+#elif defined(VF_STRICT)
 using DefaultScalar = Q;
 #else
 using DefaultScalar = QP;
@@ -38,6 +40,11 @@ inline std::vector<mpq_class> grid_family(const std::string &fam, size_t n) {
     for (size_t i = 0; i < n; i++) r.push_back(NU.at(i) + 100);
   } else if (fam == "neg") {
     for (size_t i = 0; i < n; i++) r.push_back(-NU.at(n - 1 - i));
+  } else if (fam == "sym") {
+    // contains an interval centred exactly at the origin ([-1, 1]) and one ending at it is absent: fast paths
+    // keyed on a zero midpoint are only visible here
+    static const std::vector<mpq_class> SY = {mq(-4), mq(-5, 2), mq(-1), mq(1), mq(7, 4), mq(3), mq(9, 2), mq(6), mq(15, 2), mq(8)};
+    for (size_t i = 0; i < n; i++) r.push_back(SY.at(i));
   } else if (fam == "dyad") {
     static const std::vector<mpq_class> DY = {mq(-8), mq(-63, 8), mq(-4), mq(-1, 8), mq(0), mq(1, 8), mq(1), mq(7, 2), mq(63, 8), mq(8)};
     for (size_t i = 0; i < n; i++) r.push_back(DY.at(i));
